@@ -74,6 +74,26 @@ def structure(ctx):
                 "source's default iteration %s.__iter__(): the coordinates "
                 "offered are not exactly the ones the source presents"
                 % (text(loop.iter), src))
+    # every run of the generator reaches the loop: a `return` in front of it
+    # (an "empty source" shortcut, say) offers nothing although the source's
+    # iteration decides what is offered -- an uncompressed source without
+    # stored elements still presents its whole active range
+    early = [n for n in it.own_nodes() if isinstance(n, ast.Return)
+             and not is_within(n, loop)]
+    g_ = cfg_of(it, assert_edges=False)
+    skipping = [r for r in early if not g_.can_reach(loop, r)]
+    if skipping:
+        ctx.bad("C05.R1", it, skipping[0], "the populate generator can return "
+                "before its loop over the source's iteration (`%s`): what the "
+                "source offers is decided by that iteration alone (a rank "
+                "declared uncompressed offers every coordinate of its active "
+                "range even when it stores none)"
+                % " and ".join(text(t) if pol else "not (%s)" % text(t)
+                               for t, pol in guards(skipping[0], asserts=False)),
+                text_="populate loop always reached")
+    else:
+        ctx.ok("C05.R1", it, loop, "the loop over the source is reached on every run",
+               text_="populate loop always reached")
     tg = loop.target
     names = None
     if isinstance(tg, ast.Tuple) and len(tg.elts) == 2 and \
